@@ -9,8 +9,9 @@ correspondence: real src/common/hostlist.c (assertions + ASan/UBSan, linked into
                 hl_print_ops.h) vs `pdshmodel print model <variant>` on the same record lists: for EVERY buffer size
                 n = 1 .. text length + 2, return value, position of the NUL, buffer contents, the guard bytes that
                 changed on either side of the buffer, and the sizes at which an exact-size heap allocation makes
-                ASan report; the scratch-built pdsh binary (-q / -Q with texts ending within +-2 of the 1024-byte
-                buffer, -w -^file around the 4095-byte exclusion buffer) vs the model of the two fixed callers
+                ASan report; the scratch-built pdsh binary (-q / -Q with texts ending within +-2 of 1024 bytes and of the
+                display capacity MEASURED on that binary, -w -^file around the 4095-byte exclusion buffer) vs the
+                model of the two callers run with the measured capacity (the caller's buffer policy is an input)
 oracle:         the property text on observables only (vlib/printcheck.py judge_sweep): no guard byte changes, a NUL
                 inside n bytes, fits <=> length returned and the full text left, does not fit <=> -1 and a prefix
                 left; the full text is parsed back by the real hostlist_create (in process, and again through the
@@ -39,7 +40,8 @@ MANIFEST = dict(
          "PrintSpec.lean); the model is executed against the real hostlist_ranged_string / hostlist_deranged_string "
          "(harness/hl_harness.c + hl_print_ops.h) on generated lists for every n from 1 to text length + 2 and against "
          "`pdsh -q/-Q -w` and `pdsh -w -^file` of a scratch build AND of an AddressSanitizer build of the same tree near the "
-         "1024 / 4095 / 8191-byte boundaries, and hostlist_shift_range / hostlist_pop_range until NULL (fixed stack buffers "
+         "1024-byte / measured-display-capacity / 4095 / 8191-byte boundaries (opt_list's buffer policy is measured on the binary "
+         "and handed to the model, never read from the source), and hostlist_shift_range / hostlist_pop_range until NULL (fixed stack buffers "
          "inside hostlist.c) against the model; the real code is also judged by the property "
          "text restated on observables, which yields the failing (list, n) as replay. The form of the truncation test "
          "of hostlist_deranged_string (D14) and of list_push_hostlist's retry condition (D2/F14-XLOOP) is probed on every "
